@@ -733,7 +733,7 @@ func runC13(r *hx.Result, rng *hx.Rng, thorough bool, replay string) error {
 	if thorough {
 		cases = 400
 	}
-	part := os.Getenv("VERIF_C13_PART") // development aid: "ddl" runs only the DDL schedules, "cache" only the catalog-cache schedules
+	part := os.Getenv("VERIF_C13_PART") // development aid: "ddl" runs only the DDL schedules, "cache" only the catalog-cache schedules, "ser" only the serial-order schedules
 	if part != "" {
 		cases = 0
 	}
@@ -748,6 +748,7 @@ func runC13(r *hx.Result, rng *hx.Rng, thorough bool, replay string) error {
 	}
 	// DDL schedules (c13_ddl.go): sessions with open (empty / read-only-so-far / writing) transactions while others commit DDL
 	ddlRng, cacheRng := rng.Fork(), rng.Fork()
+	serRng := rng.Fork()
 	if part == "" || part == "ddl" {
 		if err := runC13DDL(r, ddlRng, thorough); err != nil {
 			return err
@@ -756,6 +757,12 @@ func runC13(r *hx.Result, rng *hx.Rng, thorough bool, replay string) error {
 	// catalog-cache schedules tied to the Lean model Sql/CatalogCache.lean (c13_cache.go)
 	if part == "" || part == "cache" {
 		if err := runC13Cache(r, cacheRng, thorough); err != nil {
+			return err
+		}
+	}
+	// serial-order schedules over DML histories (c13_ser.go): the acknowledged transactions replayed in commit order
+	if part == "" || part == "ser" {
+		if err := runC13Ser(r, serRng, thorough); err != nil {
 			return err
 		}
 	}
